@@ -608,31 +608,61 @@ func (e *colEval) width(fn, newFn *ssa.Function) (colCount, bool, string) {
 		ok bool
 	}
 	var res []found
+	why := e.walkPaths(fn, func(in ssa.Instruction, came map[*ssa.BasicBlock]*ssa.BasicBlock) bool {
+		call, ok := in.(*ssa.Call)
+		if !ok || call.Call.StaticCallee() != newFn {
+			return false
+		}
+		var w colCount
+		ok = true
+		if len(call.Call.Args) == 1 {
+			terms, tok := e.groups(call.Call.Args[0], came, 0)
+			ok = tok
+			for _, t := range terms {
+				if t < 0 {
+					w.loop++
+				} else {
+					w.c += t
+				}
+			}
+		}
+		res = append(res, found{w, ok})
+		return true
+	})
+	if why != "" {
+		return colCount{}, false, why
+	}
+	if len(res) == 0 {
+		return colCount{}, false, "no creation of the table is reached"
+	}
+	for _, r := range res {
+		if !r.ok {
+			return colCount{}, false, "the group sizes given to table.New are not a list of constants and single non-constant sizes"
+		}
+		if r.w != res[0].w {
+			return colCount{}, false, "the width depends on a condition that is not an option"
+		}
+	}
+	return res[0].w, true, ""
+}
+
+// walkPaths follows the function from its entry under the current
+// assignment: branches on options are decided, other branches are followed
+// both ways (a block is entered once per way). visit is called for every
+// instruction with the predecessors taken so far; it ends the way by
+// returning true.
+func (e *colEval) walkPaths(fn *ssa.Function, visit func(in ssa.Instruction, came map[*ssa.BasicBlock]*ssa.BasicBlock) bool) string {
 	why := ""
 	var walk func(b *ssa.BasicBlock, came map[*ssa.BasicBlock]*ssa.BasicBlock, budget *int)
 	walk = func(b *ssa.BasicBlock, came map[*ssa.BasicBlock]*ssa.BasicBlock, budget *int) {
 		for {
 			*budget--
 			if *budget < 0 {
-				why = "too many ways to the creation of the table"
+				why = "too many ways through " + core.FuncName(fn)
 				return
 			}
 			for _, in := range b.Instrs {
-				if call, ok := in.(*ssa.Call); ok && call.Call.StaticCallee() == newFn {
-					var w colCount
-					ok := true
-					if len(call.Call.Args) == 1 {
-						terms, tok := e.groups(call.Call.Args[0], came, 0)
-						ok = tok
-						for _, t := range terms {
-							if t < 0 {
-								w.loop++
-							} else {
-								w.c += t
-							}
-						}
-					}
-					res = append(res, found{w, ok})
+				if visit(in, came) {
 					return
 				}
 			}
@@ -673,21 +703,7 @@ func (e *colEval) width(fn, newFn *ssa.Function) (colCount, bool, string) {
 	}
 	budget := 4096
 	walk(fn.Blocks[0], map[*ssa.BasicBlock]*ssa.BasicBlock{fn.Blocks[0]: nil}, &budget)
-	if why != "" {
-		return colCount{}, false, why
-	}
-	if len(res) == 0 {
-		return colCount{}, false, "no creation of the table is reached"
-	}
-	for _, r := range res {
-		if !r.ok {
-			return colCount{}, false, "the group sizes given to table.New are not a list of constants and single non-constant sizes"
-		}
-		if r.w != res[0].w {
-			return colCount{}, false, "the width depends on a condition that is not an option"
-		}
-	}
-	return res[0].w, true, ""
+	return why
 }
 
 // groups: the elements of a []int as constants (>= 0) or -1 for a size that
@@ -769,6 +785,38 @@ func (e *colEval) groups(v ssa.Value, came map[*ssa.BasicBlock]*ssa.BasicBlock, 
 		}
 		return out, true
 	case *ssa.Call:
+		// a function of the module that returns the list: every return that is
+		// reached under the assignment must give the same list
+		if callee := x.Call.StaticCallee(); callee != nil && e.p.InModule(callee) && len(callee.Blocks) > 0 && callee.Signature.Results().Len() == 1 && depth < 8 && callee != x.Parent() {
+			var lists [][]int
+			bad := false
+			why := e.walkPaths(callee, func(in ssa.Instruction, c2 map[*ssa.BasicBlock]*ssa.BasicBlock) bool {
+				ret, ok := in.(*ssa.Return)
+				if !ok {
+					return false
+				}
+				l, ok := e.groups(ret.Results[0], c2, depth+8)
+				if !ok {
+					bad = true
+				}
+				lists = append(lists, l)
+				return true
+			})
+			if why != "" || bad || len(lists) == 0 {
+				return nil, false
+			}
+			for _, l := range lists[1:] {
+				if len(l) != len(lists[0]) {
+					return nil, false
+				}
+				for i := range l {
+					if l[i] != lists[0][i] {
+						return nil, false
+					}
+				}
+			}
+			return lists[0], true
+		}
 		if bi, ok := x.Call.Value.(*ssa.Builtin); ok && bi.Name() == "append" && len(x.Call.Args) == 2 {
 			a, ok1 := e.groups(x.Call.Args[0], came, depth+1)
 			b, ok2 := e.groups(x.Call.Args[1], came, depth+1)
